@@ -71,6 +71,12 @@ func runScenario(t *testing.T, sc *Scenario, cfg simrt.Config) (res *RunResult) 
 			// end-of-run state of every execution copy handed to a layer (must be read inside the bubble)
 			for i := range log.Ev {
 				e := &log.Ev[i]
+				if e.Kind == EvListener && e.L == LExecDone {
+					// final statistics, read once everything has finished
+					if info, ok := e.Ref.(failsafe.ExecutionInfo); ok && info != nil {
+						e.Aux = []int{info.Attempts(), info.Executions(), info.Retries(), info.Hedges()}
+					}
+				}
 				if e.Kind != EvProbeEnter {
 					continue
 				}
@@ -150,7 +156,7 @@ func (w *World) executor(op *Op) (failsafe.Executor[R], context.Context) {
 	ex := failsafe.NewExecutor[R](pols...)
 	done := func(l int) func(failsafe.ExecutionDoneEvent[R]) {
 		return func(ev failsafe.ExecutionDoneEvent[R]) {
-			e := Event{Kind: EvListener, Pos: -1, L: l, Val: ev.Result, Err: ev.Error}
+			e := Event{Kind: EvListener, Pos: -1, L: l, Val: ev.Result, Err: ev.Error, Ref: ev.ExecutionInfo}
 			snapInfo(&e, ev.ExecutionInfo)
 			w.log.add(e)
 		}
